@@ -68,6 +68,8 @@ def parseKind : Sexp → MKind
 
 def parseMSym : Sexp → Option (MSym (List Nat))
   | .list [i, n, k] => some { id := i.nat?.getD 0, name := n.natList, kind := parseKind k }
+  | .list [i, n, k, cb] => some { id := i.nat?.getD 0, name := n.natList, kind := parseKind k,
+                                   cb := cb.items.map Sexp.natList }
   | _ => none
 
 def freshName (existing : List (List Nat)) (root : List Nat) : List Nat := C16.nextName existing root
